@@ -47,7 +47,7 @@ func checkC11(c *C01Case) *Violation {
 		worlds = append(worlds, &World{Seed: s})
 	}
 	for _, opt := range []bool{false, true} {
-		res := Compile(src, Opts{Optimize: opt, Auto: c.Auto, FontPath: "@repo", Switches: c.Switches})
+		res := CompileMaybeLM(src, Opts{Optimize: opt, Auto: c.Auto, FontPath: "@repo", Switches: c.Switches})
 		if !res.OK() {
 			if res.Panic != nil || res.Budget {
 				return viol("crash", "opt=%v %s\n--- source\n%s", opt, res.Describe(), src)
